@@ -839,14 +839,50 @@ def deletePaymentsAndReleaseHolds (s : State) (ps : List Payment) : Option State
     | none => none
     | some s1 => deletePaymentsAndReleaseHolds s1 rest
 
-/-- `RejectPayments`: every payment of each listed source that names the target (each source
-must have at least one). -/
-def rejectPayments (s : State) (target : Addr) (sources : List Addr) : Except Err State :=
-  if sources.isEmpty ∨ !sources.Nodup then .error .invalid
-  else if !(sources.all fun src => s.payments.any fun p => p.source = src ∧ p.target = target) then .error .notfound
-  else match deletePaymentsAndReleaseHolds s (s.payments.filter fun p => p.target = target ∧ sources.contains p.source) with
-    | none => .error .hold
-    | some s1 => .ok s1
+/-- How a message spells an account. Bech32 is case-insensitive: the all-upper-case string names
+the same account as the (canonical) lower-case one but is a different string; a mixed-case string
+is not valid bech32 (`sdk.AccAddressFromBech32` fails). -/
+inductive Spelling where
+  | lower | upper | mixed
+  deriving DecidableEq, Repr
+
+/-- an account as a message spells it (two `Spelled` are equal iff the strings are) -/
+structure Spelled where
+  acct : Addr
+  sp : Spelling
+  deriving DecidableEq, Repr
+
+/-- `getPaymentsForTargetAndSourceFromStore` payments.go:96 -/
+def paymentsForTargetAndSource (ps : List Payment) (target src : Addr) : List Payment :=
+  ps.filter fun p => p.target = target ∧ p.source = src
+
+/-- the loop of `RejectPayments` payments.go:341-352 over the parsed sources: a source that was
+`seen` already is skipped, every other one must have at least one payment for the target; the
+payments are collected source by source. -/
+def collectRejected (ps : List Payment) (target : Addr) : List Addr → List Addr → Option (List Payment)
+  | [], _ => some []
+  | src :: rest, seen =>
+    if seen.contains src then collectRejected ps target rest seen
+    else
+      let sp := paymentsForTargetAndSource ps target src
+      if sp.isEmpty then none
+      else match collectRejected ps target rest (src :: seen) with
+        | none => none
+        | some l => some (sp ++ l)
+
+/-- `MsgRejectPaymentsRequest.ValidateBasic` msgs.go:606 (at least one source, no two equal
+STRINGS, every string valid bech32), the msg server's `AccAddressFromBech32` of every source
+msg_server.go:320 (the spelling is gone from here on), then `RejectPayments` payments.go:330:
+every payment of each listed account that names the target (each account must have at least
+one), each account handled once however often and however spelled it is listed. -/
+def rejectPayments (s : State) (target : Addr) (sources : List Spelled) : Except Err State :=
+  if sources.isEmpty ∨ !sources.Nodup ∨ sources.any (fun x => x.sp = .mixed) then .error .invalid
+  else match collectRejected s.payments target (sources.map (·.acct)) [] with
+    | none => .error .notfound
+    | some ps =>
+      match deletePaymentsAndReleaseHolds s ps with
+      | none => .error .hold
+      | some s1 => .ok s1
 
 /-- the lookups of `CancelPayments`: every external id must name a payment of the source -/
 def lookupPayments (ps : List Payment) (src : Addr) : List String → Option (List Payment)
@@ -961,7 +997,7 @@ inductive Op where
   | pay (p : Payment)
   | accept (p : Payment)
   | reject (target src : Addr) (ext : String)
-  | rejectAll (target : Addr) (sources : List Addr)
+  | rejectAll (target : Addr) (sources : List Spelled)
   | cancelPay (src : Addr) (exts : List String)
   | retarget (src : Addr) (ext : String) (newTarget : Addr)
   | closeMarket (m : Nat)
